@@ -124,3 +124,4 @@ pub fn replay_cases(path: &std::path::Path) -> Vec<String> {
         .filter_map(|l| l.strip_prefix("case: ").map(|s| s.to_string())).collect()
 }
 pub mod rib;
+pub mod bmpio;
